@@ -32,7 +32,8 @@ Record graph := mkGraph {
   g_st : nat -> option obj;     (* the heap: object number -> object *)
   g_next : nat;                 (* next fresh object number *)
   g_objs : list nat;            (* Graph.Objects *)
-  g_edges : list edge }.        (* Graph.Edges *)
+  g_edges : list edge;          (* Graph.Edges *)
+  g_tabs : list nat }.          (* the objects whose shape is class or sql_table (Object.Shape.Value) *)
 
 (* Go map read / write on the association list *)
 Fixpoint lookup (k : str) (m : list (str * nat)) : option nat :=
@@ -55,25 +56,30 @@ Definition parent (g : graph) (k : nat) : option nat :=
 
 Definition root_obj : obj := mkObj [] [] None 0 [] [].
 
+Definition memb (k : nat) (l : list nat) : bool := existsb (Nat.eqb k) l.
+
 (* d2graph.NewGraph *)
 Definition init : graph :=
-  mkGraph (fun k => if k =? 0 then Some root_obj else None) 1 [] [].
+  mkGraph (fun k => if k =? 0 then Some root_obj else None) 1 [] [] [].
 
 Section Ops.
 Variable fmt : str -> str.
 Variable lower : str -> str.
 
-(* Object.newObject *)
+(* Object.newObject.  On a class / sql_table object whose fields were already compiled the Go code
+   writes to a nil map (compileClass sets Children = nil) and panics: no graph results; the model
+   leaves the graph unchanged. *)
 Definition new_object (g : graph) (p : nat) (name : str) : graph * nat :=
   match g_st g p with
   | None => (g, p)
   | Some po =>
+      if memb p (g_tabs g) then (g, p) else
       let id := fmt name in
       let c := g_next g in
       let child := mkObj id name (Some p) (o_graph po) [] [] in
       let po' := mkObj (o_id po) (o_name po) (o_parent po) (o_graph po)
                        (o_carr po ++ [c]) (map_set (lower id) c (o_cmap po)) in
-      (mkGraph (upd (upd (g_st g) c child) p po') (S c) (g_objs g ++ [c]) (g_edges g), c)
+      (mkGraph (upd (upd (g_st g) c child) p po') (S c) (g_objs g ++ [c]) (g_edges g) (g_tabs g), c)
   end.
 
 (* Object.EnsureChild on a path of plain names (no reserved keywords, no "_", no sequence diagram) *)
@@ -94,18 +100,49 @@ Fixpoint ensure_child (g : graph) (p : nat) (path : list str) : graph * nat :=
 Definition same_class (s d : nat) (sa da : bool) (e : edge) : bool :=
   (e_src e =? s) && (e_dst e =? d) && Bool.eqb (e_sa e) sa && Bool.eqb (e_da e) da.
 
+(* Object.ensureChildEdge: resolve a connection end point segment by segment, stopping at a class or
+   sql_table object (connections to fields are truncated to the container) *)
+Fixpoint ensure_child_edge (g : graph) (p : nat) (path : list str) : graph * nat :=
+  match path with
+  | [] => (g, p)
+  | n :: rest =>
+      if memb p (g_tabs g) then (g, p)
+      else let '(g', c) := ensure_child g p [n] in ensure_child_edge g' c rest
+  end.
+
 (* Object.Connect + Edge.initIndex *)
 Definition connect (g : graph) (p : nat) (src dst : list str) (sa da : bool) : graph :=
-  let '(g1, s) := ensure_child g p src in
-  let '(g2, d) := ensure_child g1 p dst in
+  let '(g1, s) := ensure_child_edge g p src in
+  let '(g2, d) := ensure_child_edge g1 p dst in
   let idx := length (filter (same_class s d sa da) (g_edges g2)) in
-  mkGraph (g_st g2) (g_next g2) (g_objs g2) (g_edges g2 ++ [mkEdge s d sa da idx]).
+  mkGraph (g_st g2) (g_next g2) (g_objs g2) (g_edges g2 ++ [mkEdge s d sa da idx]) (g_tabs g2).
+
+(* compiler.compileClass / compileSQLTable on object k (after its fields were compiled): the fields are
+   removed from the object list and k forgets its children.  In every program that compiles the fields are
+   leaves (class fields cannot have children: compile error otherwise) and no connection touches them yet
+   (the map's own connections are compiled afterwards, outer ones later still); the model does nothing
+   when that is not the case. *)
+Definition is_leaf (g : graph) (c : nat) : bool :=
+  match g_st g c with Some o => match o_carr o with [] => true | _ => false end | None => false end.
+
+Definition make_table (g : graph) (k : nat) : graph :=
+  match g_st g k with
+  | None => g
+  | Some o =>
+      if forallb (is_leaf g) (o_carr o)
+         && forallb (fun e => negb (memb (e_src e) (o_carr o)) && negb (memb (e_dst e) (o_carr o))) (g_edges g)
+      then mkGraph (upd (g_st g) k (mkObj (o_id o) (o_name o) (o_parent o) (o_graph o) [] []))
+                   (g_next g) (filter (fun x => negb (memb x (o_carr o))) (g_objs g)) (g_edges g)
+                   (k :: g_tabs g)
+      else g
+  end.
 
 (* what the compiler does for one field / one connection of the core fragment: the scope object is
    named by its path from the root (it exists already; resolving it creates nothing) *)
 Inductive op :=
 | OpEnsure (scope path : list str)
-| OpConnect (scope src dst : list str) (sa da : bool).
+| OpConnect (scope src dst : list str) (sa da : bool)
+| OpTable (scope : list str).   (* the map of [scope] declares shape: class / sql_table *)
 
 Definition apply_op (g : graph) (o : op) : graph :=
   match o with
@@ -117,6 +154,7 @@ Definition apply_op (g : graph) (o : op) : graph :=
       | _, [] => g
       | _, _ => let '(g1, s) := ensure_child g 0 scope in connect g1 s src dst sa da
       end
+  | OpTable scope => let '(g1, s) := ensure_child g 0 scope in make_table g1 s
   end.
 
 Definition run_ops (ops : list op) : graph := fold_left apply_op ops init.
@@ -154,12 +192,13 @@ Record WF (g : graph) : Prop := {
       (forall c, In c (o_carr po) -> listed g c /\ parent g c = Some p) /\
       (forall key c, In (key, c) (o_cmap po) -> In c (o_carr po));
   (* every connection joins two objects of this board *)
-  wf_edges : forall e, In e (g_edges g) -> listed g (e_src e) /\ listed g (e_dst e)
+  wf_edges : forall e, In e (g_edges g) -> listed g (e_src e) /\ listed g (e_dst e);
+  (* the fields of class and sql_table shapes are not objects *)
+  wf_tables : forall k o, In k (g_tabs g) -> g_st g k = Some o -> o_carr o = [] /\ o_cmap o = []
 }.
 
 (* ------------------------------------------------------------------ boolean reflection *)
 
-Definition memb (k : nat) (l : list nat) : bool := existsb (Nat.eqb k) l.
 Definition nodeb (g : graph) (k : nat) : bool := (k =? 0) || memb k (g_objs g).
 
 Fixpoint nodupb (l : list nat) : bool :=
@@ -227,9 +266,15 @@ Definition c_children (g : graph) : bool := forallb (c_children1 g) (0 :: g_objs
 Definition c_edges (g : graph) : bool :=
   forallb (fun e => memb (e_src e) (g_objs g) && memb (e_dst e) (g_objs g)) (g_edges g).
 
+Definition c_tables (g : graph) : bool :=
+  forallb (fun k => match g_st g k with
+                    | Some o => match o_carr o, o_cmap o with [], [] => true | _, _ => false end
+                    | None => true
+                    end) (g_tabs g).
+
 Definition wf_check (g : graph) : bool :=
   c_once g && c_root g && c_reach g && c_board g && c_parent_arr g && c_parent_map g
-  && c_children g && c_edges g.
+  && c_children g && c_edges g && c_tables g.
 
 End Ops.
 
@@ -257,5 +302,5 @@ Definition ordered_b (pos : list (option N)) : bool := nondecr (somes pos).
 
 Definition store_of_list (l : list obj) : nat -> option obj := fun k => nth_error l k.
 
-Definition snapshot (l : list obj) (objs : list nat) (edges : list edge) : graph :=
-  mkGraph (store_of_list l) (length l) objs edges.
+Definition snapshot (l : list obj) (objs : list nat) (edges : list edge) (tabs : list nat) : graph :=
+  mkGraph (store_of_list l) (length l) objs edges tabs.
